@@ -327,6 +327,11 @@ func main() {
 		}
 		if rep.Replay.Violated {
 			fmt.Printf("replay: %s\n%s\n", rep.Replay.Sig, rep.Replay.Detail)
+			for _, k := range loadKnown() {
+				if k.Property == prop && k.Status == "known" && regexp.MustCompile("^(?:"+k.Signature+")$").MatchString(rep.Replay.Sig) {
+					fmt.Printf("note: this signature is listed in known_findings.json (the search tiers report it as KNOWN-FINDING); a replay reproduces it as asked\n")
+				}
+			}
 			fmt.Printf("VIOLATION property=%s replay=%s\n", prop, abs)
 			os.Exit(1)
 		}
